@@ -388,7 +388,8 @@ pub fn go_type_name_for(ty: &tast::Ty) -> String {
         tast::Ty::TFunc { params, ret_ty } => {
             let mut s = String::from("TFunc");
             if params.is_empty() {
-                s.push_str("_unit");
+                // not "_unit": `() -> R` and `(unit) -> R` are different types
+                s.push('0');
             } else {
                 for param in params {
                     s.push('_');
